@@ -198,6 +198,9 @@ fn verdict(doc: &str, prefix: &str, s: &str, mid: Option<&str>, suffix: &str) ->
 }
 
 fn unhex(s: &str) -> Option<String> {
+    if s != "-" && (s.len() % 2 != 0 || !s.bytes().all(|b| b.is_ascii_hexdigit())) {
+        return None; // e.g. `HOOK-DIED`, `NO-CLI …`
+    }
     String::from_utf8(parse_bytes(s)).ok()
 }
 
@@ -542,6 +545,37 @@ pub fn exec(a: &[&str]) -> String {
                 Err(e) => format!("REREAD-FAIL got=error:{}", e.replace(' ', "_")),
             };
             format!("{} {v}", hex_bytes(text.as_bytes()))
+        }
+        // anc <forest encoding>: enforce_anchor_soundness + emit_yaml_value on a constructed table
+        "anc" => {
+            let r = quote_server(&format!("e {}", a[1]));
+            let Some(text) = unhex(&r) else { return r };
+            let toks: Vec<String> = text
+                .split_whitespace()
+                .filter(|w| (w.starts_with("&n") || w.starts_with("*n")) && w[2..].chars().all(|c| c.is_ascii_digit()) && w.len() > 2)
+                .map(|w| format!("{}{}", &w[..1], &w[2..]))
+                .collect();
+            let ok = alias_order_ok(&text).is_ok() && load_json(format!("{text}\n").as_bytes()).is_ok();
+            format!("{} {}", if toks.is_empty() { "-".to_string() } else { toks.join(",") }, if ok { "SOUND" } else { "UNSOUND" })
+        }
+        // blk <step> <tree>: emit_yaml_value on a nested string mapping; text + in-process reload
+        "blk" => {
+            let r = quote_server(&format!("b {} {}", a[1], a[2]));
+            let Some(text) = unhex(&r) else { return r };
+            let v = match load_json(format!("{text}\n").as_bytes()) {
+                Ok(j) => {
+                    let jb = j.trim_end().as_bytes().to_vec();
+                    let mut ji = 0;
+                    let mut ei = 0;
+                    if json_matches_tree(a[2].as_bytes(), &mut ei, &jb, &mut ji) && ji == jb.len() {
+                        "LOAD-OK".to_string()
+                    } else {
+                        format!("LOAD-FAIL got={}", hex_bytes(&jb[..jb.len().min(300)]))
+                    }
+                }
+                Err(e) => format!("LOAD-FAIL error={}", e.replace(' ', "_")),
+            };
+            format!("{r} {v}")
         }
         "ind" => cli_indent_probe(num(a[1])),
         // sloop <hexdoc> <indent>
@@ -1039,6 +1073,120 @@ fn gen_prog(r: &mut Rng) -> String {
     }
 }
 
+/// Does the JSON text at `j[*ji..]` denote the mapping encoded at `e[*ei..]` (entries up to `]`)?
+fn json_matches_tree(e: &[u8], ei: &mut usize, j: &[u8], ji: &mut usize) -> bool {
+    fn hexstr(e: &[u8], ei: &mut usize) -> String {
+        let s = *ei;
+        while *ei < e.len() && e[*ei].is_ascii_hexdigit() {
+            *ei += 1;
+        }
+        String::from_utf8(parse_bytes(std::str::from_utf8(&e[s..*ei]).unwrap_or("-")).to_vec()).unwrap_or_default()
+    }
+    if j.get(*ji) != Some(&b'{') {
+        return false;
+    }
+    *ji += 1;
+    let mut first = true;
+    while *ei < e.len() && e[*ei] == b'K' {
+        *ei += 1;
+        let key = hexstr(e, ei);
+        if !first {
+            if j.get(*ji) != Some(&b',') {
+                return false;
+            }
+            *ji += 1;
+        }
+        first = false;
+        let Some((k, n)) = json_str(j, *ji) else { return false };
+        if k != key || j.get(n) != Some(&b':') {
+            return false;
+        }
+        *ji = n + 1;
+        match e.get(*ei) {
+            Some(b'S') => {
+                *ei += 1;
+                let v = hexstr(e, ei);
+                *ei += 1;
+                let Some((s, n)) = json_str(j, *ji) else { return false };
+                if s != v {
+                    return false;
+                }
+                *ji = n;
+            }
+            Some(b'M') => {
+                *ei += 2;
+                if !json_matches_tree(e, ei, j, ji) {
+                    return false;
+                }
+                *ei += 1;
+            }
+            _ => return false,
+        }
+    }
+    if j.get(*ji) != Some(&b'}') {
+        return false;
+    }
+    *ji += 1;
+    true
+}
+
+/// Random nested string mapping in the `blk` encoding: distinct keys per mapping, adversarial
+/// keys and values.
+fn gen_block(r: &mut Rng, depth: usize, out: &mut String) {
+    let n = r.range(1, 4) as usize;
+    let mut used: Vec<String> = Vec::new();
+    for _ in 0..n {
+        let key = if r.chance(1, 2) { (*r.pick(&["a", "b", "key", "x y", "k1", "n"])).to_string() } else { adversarial(r) };
+        if used.contains(&key) {
+            continue;
+        }
+        used.push(key.clone());
+        out.push('K');
+        out.push_str(&key.bytes().map(|b| format!("{b:02x}")).collect::<String>());
+        if depth < 3 && r.chance(1, 3) {
+            out.push_str("M[");
+            gen_block(r, depth + 1, out);
+            out.push(']');
+        } else {
+            let v = adversarial(r);
+            out.push('S');
+            out.push_str(&v.bytes().map(|b| format!("{b:02x}")).collect::<String>());
+            out.push(';');
+        }
+    }
+}
+
+/// Random (value tree, anchor table) in the forest encoding, with no mark below an alias node.
+/// Object children get increasing distinct labels, array children their index, so the model's
+/// ordered value equality coincides with `OwnedValue`'s.
+fn gen_forest(r: &mut Rng, depth: usize, under_alias: bool, names: u64, arr: bool, out: &mut String) {
+    let n = r.range(if depth == 0 { 2 } else { 0 }, 4) as usize;
+    let mut label = 0u64;
+    for i in 0..n {
+        label = if arr { i as u64 } else { label + r.range(1, 2) };
+        let mark = if under_alias {
+            "n".to_string()
+        } else {
+            match r.below(5) {
+                0 | 1 => format!("d{}", r.below(names)),
+                2 | 3 => format!("a{}", r.below(names)),
+                _ => "n".to_string(),
+            }
+        };
+        let kind = if depth >= 3 { 0 } else { r.below(4) };
+        let payload = match kind {
+            1 => 9,
+            2 => 8,
+            _ => r.range(1, 3),
+        };
+        out.push_str(&format!("N{label}.{mark}.{payload}["));
+        if payload >= 8 {
+            gen_forest(r, depth + 1, under_alias || mark.starts_with('a'), names, payload == 8, out);
+        }
+        out.push(']');
+    }
+}
+
 /// Source renderings of a words-joined string for the `ssv` op.
 fn gen_src_scalar(r: &mut Rng) -> String {
     let words: Vec<&str> = (0..r.range(1, 3)).map(|_| *r.pick(&["ab", "c1", "x-y", "w:z", "q#r", "it", "0x1F", "-", "d"])).collect();
@@ -1113,6 +1261,23 @@ pub fn gen(tier: Tier, r: &mut Rng, emit: &mut dyn FnMut(String)) {
         if n <= 7 {
             emit(format!("C15 ind {n}"));
         }
+    }
+    // ---- anchor-soundness pass on constructed (value tree, anchor table)
+    let n_anc = if quick { 1500 } else { 30_000 };
+    for _ in 0..n_anc {
+        let mut enc = String::new();
+        let names = r.range(1, 3);
+        gen_forest(r, 0, false, names, false, &mut enc);
+        if !enc.is_empty() {
+            emit(format!("C15 anc {enc}"));
+        }
+    }
+    // ---- DOM block layout on constructed nested string mappings, indent step 1..7
+    let n_blk = if quick { 1200 } else { 20_000 };
+    for _ in 0..n_blk {
+        let mut enc = String::new();
+        gen_block(r, 0, &mut enc);
+        emit(format!("C15 blk {} {enc}", r.range(1, 7)));
     }
     // ---- leg 1b: streaming emitter in process
     let n_ssv = if quick { 600 } else { 8_000 };
